@@ -1231,7 +1231,7 @@ var boundTimes = []string{"0", "1", "-1", "946684800000000000", "-62135596800000
 
 var boundDurs = []int64{0, 1, -1, 1000000000, 3600000000000, -3600000000000, math.MaxInt64, math.MinInt64, math.MinInt64 + 1, 86400000000000, 7}
 
-var dateStrings = []string{"2000-01-01", "2000-01-01 00:00:00", "2000-01-01T00:00:00Z", "2000-01-01 12:34:56.789", "2000-01-01T12:34:56.123456789+05:30",
+var dateStrings = []string{"2000-01-01T01:00:00+01:00", "1999-12-31T19:00:00-05:00", "2000-01-01T05:30:00+05:30", "2000-01-01", "2000-01-01 00:00:00", "2000-01-01T00:00:00Z", "2000-01-01 12:34:56.789", "2000-01-01T12:34:56.123456789+05:30",
 	"2000-02-29", "1999-02-29", "2000-13-01", "2000-00-10", "2000-01-32", "0000-01-01", "9999-12-31 23:59:59.999999999", "2000-01-01 1:02:03", "2000-01-01    01:02:03",
 	"2000-01-01 01:02:03,5", "2000-01-01T01:02:03,5Z", "2000-01-01 24:00:00", "2000-01-01 00:60:00", "2000-01-01 00:00:60", "2000-01-01 00:00", "2000-01-01T00:00:00",
 	"2000-01-01T00:00:00z", "2000-01-01T00:00:00-24:00", "2000-01-01T00:00:00+24:60", "2000-01-01T00:00:00+25:00", "2000-01-01T00:00:00+00:61", "2000-01-01T1:00:00Z",
@@ -1510,6 +1510,31 @@ func genReduceTime(r *rand.Rand, n int, emit func(args ...string)) {
 			emit(encTree(&influxql.BinaryExpr{Op: influxql.EQ, LHS: &influxql.StringLiteral{Val: s}, RHS: &influxql.StringLiteral{Val: "2000-01-01"}}), v, "-")
 			emit(encTree(&influxql.BinaryExpr{Op: influxql.ADD, LHS: &influxql.IntegerLiteral{Val: 5}, RHS: &influxql.StringLiteral{Val: s}}), v, "-")
 			emit(encTree(&influxql.BinaryExpr{Op: influxql.ADD, LHS: &influxql.DurationLiteral{Val: 5}, RHS: &influxql.StringLiteral{Val: s}}), v, "-")
+		}
+	}
+	// the same instant written with different offsets / read in different locations: every
+	// comparison folds by the instant, not by the spelling or the location
+	cmpOps := []influxql.Token{influxql.EQ, influxql.NEQ, influxql.LT, influxql.LTE, influxql.GT, influxql.GTE, influxql.SUB}
+	sameInstant := []struct{ s, v string }{
+		{"2000-01-01T01:00:00+01:00", "now/946684800000000000/-"}, {"1999-12-31T19:00:00-05:00", "now/946684800000000000/-"},
+		{"2000-01-01T05:30:00+05:30", "now/946684800000000000/-"}, {"2000-01-01T00:00:00.000000000Z", "now/946684800000000000/-"},
+		{"2000-01-01 05:30:00", "now/946684800000000000/19800"}, {"2000-01-01T05:30:00", "now/946684800000000000/19800"},
+		{"1999-12-31 23:00:00", "now/946684800000000000/-3600"}, {"2000-01-01T01:00:00+01:00", "now/946684800000000000/19800"},
+		{"2000-01-01T01:00:00.000000001+01:00", "now/946684800000000000/-"}, {"1999-12-31T23:59:59.999999999-00:00", "now/946684800000000000/-"},
+	}
+	for _, c := range sameInstant {
+		for _, op := range cmpOps {
+			now := &influxql.Call{Name: "now"}
+			lit := &influxql.StringLiteral{Val: c.s}
+			emit(encTree(&influxql.BinaryExpr{Op: op, LHS: now, RHS: lit}), c.v, "-")
+			emit(encTree(&influxql.BinaryExpr{Op: op, LHS: lit, RHS: now}), c.v, "-")
+			emit(encTree(&influxql.BinaryExpr{Op: op, LHS: t0, RHS: lit}), c.v, "-")
+			emit(encTree(&influxql.BinaryExpr{Op: op, LHS: &influxql.BinaryExpr{Op: influxql.ADD, LHS: now, RHS: &influxql.DurationLiteral{Val: time.Hour}},
+				RHS: &influxql.BinaryExpr{Op: influxql.ADD, LHS: lit, RHS: &influxql.DurationLiteral{Val: time.Hour}}}), c.v, "-")
+			for _, c2 := range sameInstant[:4] {
+				emit(encTree(&influxql.BinaryExpr{Op: op, LHS: &influxql.BinaryExpr{Op: influxql.SUB, LHS: lit, RHS: &influxql.DurationLiteral{Val: 0}},
+					RHS: &influxql.StringLiteral{Val: c2.s}}), c.v, "-")
+			}
 		}
 	}
 	for _, a := range boundTimes {
